@@ -141,7 +141,11 @@ def run_case(ctx, nthreads, max_events):
     fails = []
     order = []
     gidx = 0
+    total_events = sum(len(tr) for tr in traces)
+    empty_at = rng.randrange(total_events) if rng.random() < 0.3 else None     # the service removes every tracepoint here
     while any(pos[t] < len(traces[t]) for t in range(nthreads)):
+        if empty_at is not None and gidx == empty_at:
+            world.install([])
         t = rng.choice([t for t in range(nthreads) if pos[t] < len(traces[t])])
         kind, file, func, line, key, arg = traces[t][pos[t]]
         pos[t] += 1
@@ -235,7 +239,7 @@ def run_case(ctx, nthreads, max_events):
     left = world.pending()
     leftover = {t: [ctx_ids[id(c)][1] for c in reversed(list(left.get(workers[t].ident) or []))] for t in range(nthreads)}
     world.clear_pending()
-    desc = dict(threads=nthreads, tracepoints=tdesc, interleaving=order[:60],
+    desc = dict(threads=nthreads, tracepoints=tdesc, interleaving=order[:60], all_tracepoints_removed_at_event=empty_at,
                 traces=[[(k, f.rsplit("/", 1)[1], fn, ln, key) for k, f, fn, ln, key, _ in tr] for tr in traces])
     nested_same = any(sum(1 for e in tr if e[0] == "call") >= 2 for tr in traces)
     ctx.case(dict(tracepoints=tdesc, traces=desc["traces"]), nontrivial=bool(ctx_ids) and nested_same,
